@@ -106,6 +106,8 @@ func leanTyX(t gty) string {
 		return "String"
 	case s == "errc":
 		return "Go.ErrC"
+	case s == "unit":
+		return "Unit"
 	case knownStructs[s] != nil:
 		return s
 	case strings.HasPrefix(s, "func:"):
@@ -162,6 +164,8 @@ type imp struct {
 	idxTmp   map[ast.Node]string
 	idxTy    map[ast.Node]gty
 	pureSigs map[string][]sfield // pure-mode methods (jsf64ctx.rand): their receiver fields in order
+	st       bool                // stream mode (repeat.more): Go.StM — begin/endGroup, drawBits and flipBiasedCoin are requests
+	stream   string              // stream mode: the name of the bit stream parameter
 	em       bool                // engine mode (findBug): Go.EM — a script mode with the requests init / checkOnce / early
 	sm       bool                // script mode (shrink.go's shrinker): reads of s.rec / s.shrinks and s.accept are effects (Go.SM)
 }
@@ -1124,6 +1128,10 @@ func (m *imp) block(list []ast.Stmt, c ictx) string {
 			pre := m.hoistIdx(call)
 			return withPre(pre, rest())
 		}
+		if m.st && m.streamCall(call) != "" {
+			pre := m.hoistIdx(call)
+			return withPre(pre, rest())
+		}
 	case *ast.IfStmt:
 		if s.Init != nil {
 			panic("translate(imp): if with init")
@@ -1754,7 +1762,7 @@ func (t *trans) impFunctionMode(key string, sigs map[string]*isig, sm bool, suff
 	fxMode = false
 	smMode = sm
 	defer func() { smMode = false; smPartial = nil }()
-	m := &imp{t: t, p: t.p, key: key + suffix, sigs: sigs, objs: map[string]string{}, callTmp: map[*ast.CallExpr]string{}, idxTmp: map[ast.Node]string{}, idxTy: map[ast.Node]gty{}, pureSigs: t.pureMethodFields, sm: sm, em: emMode}
+	m := &imp{t: t, p: t.p, key: key + suffix, sigs: sigs, objs: map[string]string{}, callTmp: map[*ast.CallExpr]string{}, idxTmp: map[ast.Node]string{}, idxTy: map[ast.Node]gty{}, pureSigs: t.pureMethodFields, sm: sm, em: emMode, st: stMode}
 	smMonad = m.mon()
 	if sm {
 		smPartial = m.smEffect
@@ -1795,6 +1803,12 @@ func (t *trans) impFunctionMode(key string, sigs map[string]*isig, sm bool, suff
 		for _, n := range f.Names {
 			if sm && exprText(t.p.fset, f.Type) == "time.Time" {
 				dropped = true // the deadline: it never expires here
+				argPos++
+				continue
+			}
+			if stMode && exprText(t.p.fset, f.Type) == "bitStream" {
+				m.stream = n.Name // the stream is reached through requests
+				dropped = true
 				argPos++
 				continue
 			}
@@ -1856,6 +1870,9 @@ func (t *trans) impFunctionMode(key string, sigs map[string]*isig, sm bool, suff
 	}
 	if sg.fuel {
 		params = append(params, "(fuel : Nat)")
+	}
+	if m.st {
+		params = append([]string{"(fe : Go.FEval)"}, params...)
 	}
 	out := strings.Join(m.aux, "\n")
 	if out != "" {
